@@ -26,7 +26,7 @@ func init() { fw.Register(prop{}) }
 func (prop) ID() string { return "C01" }
 func (prop) Cases(tier string) int {
 	if tier == "thorough" {
-		return 60000
+		return 40000
 	}
 	return 3000
 }
